@@ -190,7 +190,10 @@ def _loader(n, chunks=None, seed=3):
     pos = np.array([[13, 13, 12 + 14 * i] for i in range(n)], dtype=np.float32)
     for i, p in enumerate(pos):
         tomo[tuple(p.astype(int))] = 100.0 + i
-    rot = Rotation.from_euler("zyx", [[10 * i, 5, -7 * i] for i in range(n)], degrees=True)
+    # orientations come in mutually inverse pairs (q and its conjugate differ only in signs), so that per-orientation
+    # state that is keyed too coarsely (|q|, rounded angles ...) makes the result depend on which task ran first
+    base = [Rotation.from_euler("zyx", [10 * (i + 1), 5 + 3 * i, -7 * (i + 1)], degrees=True) for i in range((n + 1) // 2)]
+    rot = Rotation.concatenate([r if j == 0 else r.inv() for r in base for j in (0, 1)][:n])
     img = tomo if chunks is None else da.from_array(tomo, chunks=chunks)
     return SubtomogramLoader(img, Molecules(pos, rot), order=1, output_shape=(7, 7, 7)), tomo
 
